@@ -35,6 +35,19 @@ func ruleNegotiationSymmetry(c *Ctx, rule string) {
 			n++
 			name := w.Short(fn)
 			seenFn[name] = true
+			// the metadata inspected must be what the PEER sent on the tunnel-opening call
+			srcD := desc(cv.Call.Args[0])
+			wantSrc := map[string]string{
+				"(*pendingChannel).Start":            ".Header()#0",
+				"(*ReverseTunnelServer).Serve":       ".Header()#0",
+				"newReverseChannel":                  "metadata.FromIncomingContext(param:stream.Context())#0",
+				"(*TunnelServiceHandler).openTunnel": "metadata.FromIncomingContext(param:stream.Context())#0",
+			}[name]
+			okSrc := wantSrc != "" && strings.HasSuffix(srcD, wantSrc)
+			if strings.HasPrefix(srcD, "*alloc:") && strings.Contains(srcD, ".Header()#0") {
+				okSrc = okSrc || strings.Contains(wantSrc, "Header")
+			}
+			c.check(okSrc, rule, name+": inspects the peer's metadata", w.At(cv), srcD, "the negotiate header is looked up in "+srcD+", not in the metadata the peer sent ("+wantSrc+"): this end would see its own header and believe every peer negotiates — a legacy peer gets settings/window-update frames it does not understand")
 			// flag = phi(false, vals[0] == "on") with the comparison under len(vals) > 0
 			var eq *ssa.BinOp
 			allInstrs(fn, func(in ssa.Instruction) {
@@ -262,6 +275,41 @@ func ruleRevisionSelection(c *Ctx, r4, r7 string) {
 			}
 		}
 		c.check(ok, r4, w.Short(fn)+": candidates are the server's advertised revisions", w.At(st), "ranges over settings.SupportedProtocolRevisions", "the stored revision does not come from the settings frame's list")
+	}
+	// the "some common revision" flag is set only for a member
+	var supPhi *ssa.Phi
+	for _, call := range callsIn(fn, func(ci ssa.CallInstruction) bool { return staticCallee(ci) == a.ChClose }) {
+		for _, f := range boolFactsAt(call) {
+			if phi, ok := f.V.(*ssa.Phi); ok && !f.True && inLoopPhi(phi) {
+				supPhi = phi
+			}
+		}
+	}
+	if supPhi == nil {
+		c.fail(r4, w.Short(fn)+": no common revision detected", posOf(w, fn), "no channel close guarded by a loop-carried 'found a common revision' flag: a settings frame without a common revision is silently accepted")
+	} else {
+		okSup := true
+		var whyS string
+		nTrue := 0
+		for i, e := range supPhi.Edges {
+			if !isConstBool(e, true) {
+				continue
+			}
+			nTrue++
+			pred := supPhi.Block().Preds[i]
+			member := false
+			for _, f := range boolFactsAt(pred.Instrs[len(pred.Instrs)-1]) {
+				if call, ok := f.V.(*ssa.Call); ok && f.True {
+					if cal := staticCallee(call); cal != nil && strings.HasPrefix(cal.Name(), "inSlice") {
+						member = true
+					}
+				}
+			}
+			if !member {
+				okSup, whyS = false, fmt.Sprintf("the flag becomes true on the edge from block %d, which is not under inSlice(rev, supported) == true", pred.Index)
+			}
+		}
+		c.check(okSup && nTrue >= 1, r4, w.Short(fn)+": 'common revision found' only for a supported revision", w.At(supPhi), "flag set true only under membership", whyS+": any non-empty list would count as compatible, the 'no common revision' error becomes unreachable and the tunnel silently proceeds")
 	}
 	// new_stream carries the negotiated revision
 	if e := c.newStreamEmit(); e != nil {
@@ -828,4 +876,13 @@ func ruleUnregisterAndCallbacks(c *Ctx, r6, r7 string) {
 	if wait != nil && len(closeD) == 1 {
 		c.check(reaches(closeD[0], wait) || dominates(closeD[0], wait), r7, w.Short(ort)+": close callback registered before the handler blocks", w.At(closeD[0]), "defer before <-ch.Done()", "the close callback is deferred only after the handler stopped waiting")
 	}
+}
+
+func inLoopPhi(phi *ssa.Phi) bool {
+	for _, p := range phi.Block().Preds {
+		if phi.Block().Dominates(p) {
+			return true
+		}
+	}
+	return false
 }
